@@ -61,3 +61,68 @@ def kinematics (s : Sys α) (q : List α) : List (Tf α) :=
 
 end
 end Brax.Mj
+
+/-! ## velocities (`mj_comVel` / `mj_objectVelocity` of the body frame origin, world axes)
+
+Rigid-body velocity recursion, per body:
+`ω = ω_p + Σ_hinges axis_w·q̇ (+ R·q̇_ang for a free joint)`,
+`v = v_p + ω_p × (pos − pos_p) + Σ_slides axis_w·q̇ + Σ_hinges (axis_w·q̇) × (pos − anchor_w)`
+(`v = q̇_lin` for a free joint), where `axis_w`, `anchor_w` are taken in the running frame at the
+time the joint is applied, `pos` is the final body origin. -/
+namespace Brax.Mj
+open Brax
+
+section
+variable {α : Type} [Zero α] [One α] [Add α] [Sub α] [Mul α] [Neg α] [Div α]
+  [LT α] [DecidableLT α] [LE α] [DecidableLE α] [OfScientific α] [HasSqrt α] [HasTrig α]
+
+/-- running state of the joint loop: pose, angular velocity so far, slide contribution so far,
+and the list of (anchor_w, axis_w·q̇) of the hinges seen -/
+structure JointAcc (α : Type) where
+  pose : Tf α
+  ang : V3 α
+  lin : V3 α
+  hinges : List (V3 α × V3 α)
+
+def applyJointVel (anchor : V3 α) (st : JointAcc α) (dqq : DofP α × α × α) : JointAcc α :=
+  let d := dqq.1
+  let q := dqq.2.1
+  let qd := dqq.2.2
+  let pose' := applyJoint anchor st.pose (d, q)
+  if v3IsZero d.motion.vel then
+    let axisW := rotate d.motion.ang st.pose.rot
+    let w : V3 α := ⟨axisW.x * qd, axisW.y * qd, axisW.z * qd⟩
+    ⟨pose', st.ang + w, st.lin, st.hinges ++ [(st.pose.pos + rotate anchor st.pose.rot, w)]⟩
+  else
+    let axisW := rotate d.motion.vel st.pose.rot
+    ⟨pose', st.ang, st.lin + ⟨axisW.x * qd, axisW.y * qd, axisW.z * qd⟩, st.hinges⟩
+
+/-- pose and velocity of one body given its parent's -/
+def bodyPoseVel (parent : Option (Tf α × Motion α)) (lk : LinkP α) (l : Kin.LinkIn α) :
+    Tf α × Motion α :=
+  let pose := bodyPose (parent.map Prod.fst) lk l
+  match l.typ with
+  | .free =>
+    match l.qd with
+    | [v0, v1, v2, w0, w1, w2] => (pose, ⟨rotate ⟨w0, w1, w2⟩ pose.rot, ⟨v0, v1, v2⟩⟩)
+    | _ => (pose, Motion.zero)
+  | _ =>
+    let start : Tf α := match parent with
+      | none => lk.tf
+      | some p => ⟨p.1.pos + rotate lk.tf.pos p.1.rot, quatMul p.1.rot lk.tf.rot⟩
+    let st := (l.dofs.zip (l.q.zip l.qd)).foldl (applyJointVel lk.joint.pos)
+      ⟨start, V3.zero, V3.zero, []⟩
+    let base : Motion α := match parent with
+      | none => Motion.zero
+      | some p => ⟨p.2.ang, p.2.vel + V3.cross p.2.ang (pose.pos - p.1.pos)⟩
+    let hingeLin := st.hinges.foldl (fun acc h => acc + V3.cross h.2 (pose.pos - h.1)) V3.zero
+    (pose, ⟨base.ang + st.ang, base.vel + st.lin + hingeLin⟩)
+
+/-- world pose and velocity (`xpos`, `xquat`, object velocity of the body frame) of every body -/
+def kinematicsVel (s : Sys α) (q qd : List α) : List (Tf α × Motion α) :=
+  let ins := Kin.linkSlices s.types q qd s.dofs
+  Kin.scanFwd (fun par (a : LinkP α × Kin.LinkIn α) => bodyPoseVel par a.1 a.2) s.parents
+    (s.links.zip ins)
+
+end
+end Brax.Mj
